@@ -7,7 +7,9 @@
 wt=$1; id=$2; name=$3; shift 3
 here=$(cd "$(dirname "$0")/.." && pwd)
 out="$here/seeded/$id-$name"; mkdir -p "$out"
-cp "$wt/SEED/patch.diff" "$out/patch.diff"; cp "$wt/SEED/demo.py" "$out/demo.py"; cp "$wt/SEED/meta.json" "$out/meta.seed.json"
+# <seed-worktree> = "-" re-evaluates an already stored seed (after a check was strengthened)
+if [ "$wt" != "-" ]; then cp "$wt/SEED/patch.diff" "$out/patch.diff"; cp "$wt/SEED/demo.py" "$out/demo.py"; cp "$wt/SEED/meta.json" "$out/meta.seed.json"; fi
+if [ -f "$out/verification.txt" ]; then mv "$out/verification.txt" "$out/verification.first.txt"; fi
 d=$(mktemp -d /tmp/verif-seed.XXXXXX)
 git -C /repo archive HEAD | tar -x -C "$d"
 rec="$out/verification.txt"; : > "$rec"
